@@ -60,7 +60,7 @@ def _mentions(expr, var):
     return False
 
 
-def h14a(c, n_streams=2, lengths=(1, 2), grouping="choose", raise_in_callback=False):
+def h14a(c, n_streams=2, lengths=(1, 2), grouping="choose", raise_in_callback=False, cooldown=False):
     """real FlumineSimulation.run() over stub streams with symbolic publish times (non-decreasing per stream, ties across
     streams allowed), symbolic event grouping and a symbolic wall clock: chronological, complete, exactly once, clock = publish
     time, wall clock never observed, real clock restored"""
@@ -69,8 +69,16 @@ def h14a(c, n_streams=2, lengths=(1, 2), grouping="choose", raise_in_callback=Fa
     raise_at = c.choose("callback_raises_at", [None, 0, 1]) if raise_in_callback else None
     with cm.config_set(simulated=True, raise_errors=bool(raise_in_callback)):
 
+        placed = []
+
         def pmb(strategy, market, market_book):
             seen.append((market.market_id, market_book, _dt.datetime.utcnow(), strategy))
+            if cooldown:
+                # a strategy with a 5 s placement cool-down tries an order on every update: what is accepted may only depend
+                # on the recorded publish times
+                from flumine.order.trade import Trade
+                o = Trade(market.market_id, 1, 0, strategy, place_reset_seconds=5.0).create_order("BACK", cm.LimitOrder(2.0, 2.0))
+                placed.append((market.market_id, market_book.publish_time_epoch, market.place_order(o)))
             if raise_at is not None and len(seen) - 1 == raise_at:
                 raise RuntimeError("strategy bug")
 
@@ -135,6 +143,14 @@ def h14a(c, n_streams=2, lengths=(1, 2), grouping="choose", raise_in_callback=Fa
             c.ob("clock=publish-time-of-update", x[2] is x[1].publish_time or c.is_true(x[2] == x[1].publish_time))
             if c.mode == "sym" and isinstance(x[2], core.SymTime):
                 c.ob("clock-independent-of-wall-clock", not _mentions(x[2].us, "wall_clock"))
+        last = {}
+        for (mid, tms, ok) in placed:
+            exp = True if mid not in last else c.is_true(tms - last[mid] >= 5000)
+            c.ob("cool-down-measured-on-publish-times", ok == exp, accepted=ok)
+            if ok:
+                last[mid] = tms
+            else:
+                c.cover("cool-down-refusal")
         if c.mode == "sym":
             # (the only assertions about the wall clock are the two bounds of its input range)
             c.ob("no-decision-depends-on-wall-clock", len([a for a in c.solver.assertions() if _mentions(a, "wall_clock")]) <= 2)
@@ -212,6 +228,8 @@ OUT = ["independence from process and PYTHONHASHSEED: needs separate interpreter
 HARNESSES = [
     Harness("H14a", h14a, quick=dict(n_streams=2, lengths=(1, 3)), thorough=dict(n_streams=3, lengths=(1, 2, 3)), pattern="P1 + P4 (wall clock)",
             requires=["run", "event-group"], outside=OUT, max_paths=(400000, 4000000), wall_s=(300, 3000), selfcheck=False),
+    Harness("H14e", h14a, quick=dict(n_streams=1, lengths=(3,), grouping=False, cooldown=True), thorough=dict(n_streams=2, lengths=(2, 3), cooldown=True),
+            pattern="P1 + P4 (wall clock)", requires=["run", "cool-down-refusal"], outside=OUT, selfcheck=False),
     Harness("H14c", h14a, quick=dict(n_streams=2, lengths=(1, 2), raise_in_callback=True), pattern="control-flow obligation on every path",
             requires=["run-ended-with-exception"], outside=OUT, selfcheck=False),
     Harness("H14d", h14d, quick=dict(n_updates=2), thorough=dict(n_updates=3), pattern="P1 kernel-with-oracle",
